@@ -21,7 +21,8 @@ Import ListNotations.
 From DD Require Import Base.PyStr Base.Value Diff.Tree Diff.DiffModel Hash.HashModel Hash.Equiv
   Hash.HashProofsBase Hash.HashProofsC07 DiffIO.DiffIOModel DiffIO.DiffIOProofs Options.OptModel
   HashDiff.HashDiffModel HashDiff.HashDiffProofsDefault HashDiff.HashDiffProofsNum
-  HashDiff.HashDiffProofsAtoms HashDiff.HashDiffProofsWitness.
+  HashDiff.HashDiffProofsAtoms HashDiff.HashDiffProofsInv HashDiff.HashDiffProofsLift
+  HashDiff.HashDiffProofsWitness HashDiff.HashDiffProofsSat.
 
 (* ------------------------------------------------------------------------- *)
 (** (1) The property at DEFAULT options, all nested values: corollary of C05 + C06 + C07
@@ -94,6 +95,80 @@ Theorem C12_number_formatting_agrees :
   (ftxt (N.to_nat d) a = ftxt (N.to_nat d) b <-> num_str d (dyv a) = num_str d (dyv b)).
 Proof. intros d a b Ha Hb. rewrite (ftxt_sem d a b Ha Hb), num_str_inj. tauto. Qed.
 Print Assumptions C12_number_formatting_agrees.
+
+(* ------------------------------------------------------------------------- *)
+(** (3) ALL nested values, EVERY combination of the shared options, EVERY pairing oracle,
+        every hasher that is injective, emits separator-free non-empty tokens and
+        lower-case-stable text (SHA-256 hexdigest): equal hashes <=> empty order-ignoring
+        diff, inside the boolean guard [lift_guard] =
+          every str (bytes when the text type is ignored) is free of ':' and is not NONE up
+          to the case folding in force (K1), bytes are ASCII, no bool meets an int / float
+          under ignore_numeric_type_changes (K9), key cleaning is coherent with the key hashes
+          on the dict keys ([cohk]: excludes ==-aliased keys, bytes keys under
+          ignore_string_case, rounded float keys under significant_digits alone, bool keys
+          under ignore_numeric_type_changes), every dict has a good key set (no clean-key
+          collision) and, with report_repetition, no set has two members the options merge.
+        Proof: structural induction over t1; a pairing can never turn different into equal. *)
+Theorem C12_hash_iff_diff_partial :
+  forall (H : pystr -> pystr),
+  (forall s, sepfree (H s)) -> (forall s t, H s = H t -> s = t) -> (forall s, lower (H s) = H s) ->
+  forall udiff c F rep pairs t1 t2,
+  shared F = true -> thr_num c <= thr_den c -> lift_guard c F rep t1 t2 = true ->
+  (hash_pure H (hoptsF F (DiffModel.ignore_private c) rep) t1 = hash_pure H (hoptsF F (DiffModel.ignore_private c) rep) t2 <->
+   fst (run_diff_ioF H udiff c F rep pairs t1 t2) = []).
+Proof. exact hash_iff_diff. Qed.
+Print Assumptions C12_hash_iff_diff_partial.
+
+(* the same on the observables of the correspondence check *)
+Theorem C12_verdict_iff_hash_partial :
+  forall (H : pystr -> pystr),
+  (forall s, sepfree (H s)) -> (forall s t, H s = H t -> s = t) -> (forall s, lower (H s) = H s) ->
+  forall udiff c F rep pairs t1 t2,
+  shared F = true -> thr_num c <= thr_den c -> lift_guard c F rep t1 t2 = true ->
+  (hash_eqF H c F rep t1 t2 = true <-> verdictF H udiff c F rep pairs t1 t2 = DEmpty).
+Proof. exact verdict_iff_hash. Qed.
+Print Assumptions C12_verdict_iff_hash_partial.
+
+(* inside the guard the verdict is independent of the pairing heuristic (cutoff_distance_for_pairs,
+   cutoff_intersection_for_pairs, max_passes, cache_size occur in the model only through [pairs]) *)
+Theorem C12_pairing_independence_partial :
+  forall (H : pystr -> pystr),
+  (forall s, sepfree (H s)) -> (forall s t, H s = H t -> s = t) -> (forall s, lower (H s) = H s) ->
+  forall udiff udiff' c F rep pairs pairs' t1 t2,
+  shared F = true -> thr_num c <= thr_den c -> lift_guard c F rep t1 t2 = true ->
+  (fst (run_diff_ioF H udiff c F rep pairs t1 t2) = [] <-> fst (run_diff_ioF H udiff' c F rep pairs' t1 t2) = []).
+Proof. exact pairing_independence. Qed.
+Print Assumptions C12_pairing_independence_partial.
+
+(* the hash side on the observable DeepHash(v, **F)[v] computed with its own fresh `hashes`
+   table (b06's memo-threading model [deephash]): additionally no two ==-equal but different
+   atoms inside ONE value (K2) *)
+Theorem C12_deephash_iff_diff_partial :
+  forall (H : pystr -> pystr),
+  (forall s, sepfree (H s)) -> (forall s t, H s = H t -> s = t) -> (forall s, lower (H s) = H s) ->
+  forall udiff c F rep pairs t1 t2,
+  shared F = true -> thr_num c <= thr_den c -> lift_guard c F rep t1 t2 = true ->
+  wf t1 = true -> wf t2 = true -> alias_free t1 = true -> alias_free t2 = true ->
+  (deephash H (hoptsF F (DiffModel.ignore_private c) rep) t1 = deephash H (hoptsF F (DiffModel.ignore_private c) rep) t2 <->
+   fst (run_diff_ioF H udiff c F rep pairs t1 t2) = []).
+Proof. exact deephash_iff_diff. Qed.
+Print Assumptions C12_deephash_iff_diff_partial.
+
+(* the hypotheses on the hasher and the guard are satisfiable (a non-trivial pair of nested
+   values that differ only in the ignored aspects: keys, set members and leaves) *)
+Theorem C12_lift_hypotheses_satisfiable :
+  ((forall s, sepfree (uhash s)) /\ (forall s t, uhash s = uhash t -> s = t) /\ (forall s, lower (uhash s) = uhash s)) /\
+  lift_guard cfg_def F_all false ex_a ex_b = true /\ lift_guard cfg_def F_all true ex_a ex_b = true /\ shared F_all = true.
+Proof.
+  split; [split; [exact uhash_tok|split; [exact uhash_inj|exact uhash_low]]|].
+  destruct lift_guard_example as [A B]. repeat split; assumption || reflexivity.
+Qed.
+(* ... and by values that are alias-free and well formed (the extra guards of the deephash form) *)
+Theorem C12_deephash_guards_satisfiable :
+  wf ex_a = true /\ wf ex_b = true /\ alias_free ex_a = true /\ alias_free ex_b = true.
+Proof. vm_compute. repeat split; reflexivity. Qed.
+Print Assumptions C12_deephash_guards_satisfiable.
+Print Assumptions C12_lift_hypotheses_satisfiable.
 
 (* ------------------------------------------------------------------------- *)
 (** Full strength is false of the faithful models (each witness is replayed on the
